@@ -62,6 +62,7 @@ Step(ln) ==
          [] o.name = "initagain" -> InitAgain(h)
          [] o.name = "has"       -> Has(h, S)
          [] o.name = "get"       -> Has(h, S)
+         [] o.name = "meta"      -> Has(h, S)
          [] o.name = "list"      -> List(h)
          [] OTHER                -> FALSE
 
